@@ -49,7 +49,7 @@ impl Monitor for C12 {
         "C12"
     }
     fn rule(&self) -> String {
-        "cases = seeded universes (incl. soft lists and hints); for each case a baseline run counts the cancellation polls P, then the case is re-run for EVERY poll index k < min(P, cap) (plus 8 sampled indices beyond the cap when P is larger) with the signal first firing at poll k (sticky for even k, transient for odd k), synchronously and under 2 async policies (signal arrives while sibling futures are parked). The cancel value is the unique integer k. Oracle per (case, mode, k): if the signal fired: result is Cancelled carrying exactly k, and no get_candidates/get_dependencies call event follows the firing poll in the log; If it never fired (async order moved the polls): result equals the baseline of that mode. Then, for EVERY provider callback event j < cap (call and return events of get_candidates / get_dependencies / filter / sort), the case is re-run with the signal raised for good while the provider handles event j: no get_candidates/get_dependencies call may start after the raise (each is documented to be preceded by a poll), the result must be Cancelled with the value of the first poll that observed it, and (hook H3, a counter of propagation rounds sampled at every provider event) every propagation round begins with a poll. Separately: a provider that is polled but never fires gives the same result as the baseline. distinct = (content hash, mode, k); non-trivial = fired with >= 1 sibling future parked, or inside a soft-requirement phase".into()
+        "cases = seeded universes (incl. soft lists and hints); for each case a baseline run counts the cancellation polls P, then the case is re-run for EVERY poll index k < min(P, cap) (plus 8 sampled indices beyond the cap when P is larger) with the signal first firing at poll k (sticky for even k, transient for odd k), synchronously and under 2 async policies (signal arrives while sibling futures are parked). The cancel value is the unique integer k. Oracle per (case, mode, k): if the signal fired: result is Cancelled carrying exactly k, and no get_candidates/get_dependencies call event follows the firing poll in the log; If it never fired (async order moved the polls): result equals the baseline of that mode. Then, for EVERY provider callback event j < cap (call and return events of get_candidates / get_dependencies / filter / sort), the case is re-run with the signal raised for good while the provider handles event j: no get_candidates/get_dependencies call may start after the raise (each is documented to be preceded by a poll), the result must be Cancelled with the value of the first poll that observed it, and (hook H3, a counter of propagation rounds sampled at every provider event) every propagation round begins with a poll. A third of the cases is also enumerated with a provider whose sort_candidates queries the cache re-entrantly (polls made while a query of the provider is being polled are the provider's, all others the solver's and must lead to Cancelled). Separately: a provider that is polled but never fires gives the same result as the baseline. distinct = (content hash, mode, k); non-trivial = fired with >= 1 sibling future parked, or inside a soft-requirement phase".into()
     }
     fn cases(&self, tier: Tier) -> u64 {
         tier.pick(12_000, 240_000)
@@ -218,6 +218,59 @@ impl Monitor for C12 {
                         ctx.rep.count("raised-and-never-polled-again");
                         if !same_result(&out, &base) && matches!(mode, Mode::Sync) {
                             ctx.violation("polling changed the result although the signal never fired", what.clone());
+                        }
+                    }
+                }
+            }
+            // with a provider whose sort_candidates queries the solver's cache re-entrantly: a poll made
+            // while one of the provider's OWN queries is being polled is answered to the provider (it
+            // may drop the value, DESIGN 7.3), but every other poll is the solver's: if the signal
+            // fires there the result is Cancelled with that value and nothing is started afterwards -
+            // also when the solver's request was only waiting for a request the provider had started
+            if h % 3 == 0 {
+                let ropts = SolveOpts { pause_mask: PAUSE_ALL, ..base_opts.clone() };
+                let mut bsess = crate::run::Session::new(u.clone(), &ropts);
+                bsess.prov().reentrant_sort.set(true);
+                let bout = bsess.solve(&c.p);
+                let np = bsess.prov().polls.get();
+                if bout.verdict().is_some() {
+                    for k in 0..np.min(c.cap) {
+                        ctx.rep.evaluations += 1;
+                        let cancel = if k % 2 == 0 { Cancel::Transient(k) } else { Cancel::Sticky(k) };
+                        let mut sess = crate::run::Session::new(u.clone(), &SolveOpts { cancel, ..ropts.clone() });
+                        sess.prov().reentrant_sort.set(true);
+                        let out = sess.solve(&c.p);
+                        let log = sess.log();
+                        let what = format!("mode {:?} cancel {:?}, sort_candidates queries the cache re-entrantly", mode, cancel);
+                        round_faults(&sess, &what, ctx);
+                        // first firing poll that was not made on behalf of the provider
+                        let mut solver_side = None;
+                        for (i, e) in log.iter().enumerate() {
+                            if let Ev::CancelPoll(kk, true) = e {
+                                if i > 0 && log[i - 1] == Ev::PollForProvider(*kk) {
+                                    ctx.rep.count("re-entrant:signal-fired-on-a-poll-made-for-the-provider");
+                                    continue;
+                                }
+                                solver_side = Some((i, *kk));
+                                break;
+                            }
+                        }
+                        match (&out, solver_side) {
+                            (Outcome::Panic(pi), _) => ctx.violation(format!("panic while cancelling: {}", pi.signature()), what.clone()),
+                            (Outcome::Deadlock, _) => ctx.violation("deadlock while cancelling", what.clone()),
+                            (Outcome::Budget, _) => ctx.violation("step budget exceeded while cancelling", what.clone()),
+                            (Outcome::Cancelled(val), Some((pos, kk))) => {
+                                ctx.rep.count("re-entrant:signal-fired-on-a-poll-of-the-solver");
+                                if *val != Some(kk) {
+                                    ctx.violation("Cancelled carries a different value", format!("{what}: the solver first observed {kk}, result carries {:?}", val));
+                                }
+                                if let Some(e) = log[pos..].iter().find(|e| matches!(e, Ev::CandCall(_) | Ev::DepsCall(_))) {
+                                    ctx.violation("provider call started after the cancellation was observed", format!("{what}: {:?} after the solver's firing poll", e));
+                                }
+                            }
+                            (_, Some((_, kk))) => ctx.violation("cancellation fired but result is not Cancelled", format!("{what}: fired at the solver's own poll {kk}, result {}", out.tag())),
+                            (Outcome::Cancelled(_), None) => ctx.violation("Cancelled without a signal", format!("{what}: the signal only ever fired on polls made for the provider")),
+                            (_, None) => {}
                         }
                     }
                 }
